@@ -30,7 +30,7 @@ def sh(cmd, **kw):
 
 def gen_config(dst_dir):
     src = open(os.path.join(REPO, "include/rbdl/rbdl_config.h.cmake")).read()
-    defs = {"RBDL_BUILD_STATIC": True, "RBDL_BUILD_ADDON_LUAMODEL": True, "RBDL_BUILD_ADDON_MUSCLE": True}
+    defs = {"RBDL_BUILD_STATIC": True, "RBDL_BUILD_ADDON_LUAMODEL": True}
     strs = {"RBDL_BUILD_COMMIT": "verif", "RBDL_BUILD_TYPE": "verif", "RBDL_BUILD_BRANCH": "verif",
             "RBDL_BUILD_COMPILER_ID": "GNU", "RBDL_BUILD_COMPILER_VERSION": "12"}
     out = []
